@@ -134,13 +134,15 @@ def stripCR (d : Bytes) (ends : List Nat) : List Nat :=
 `fixed = false` is the shipped rule `entry_ends = ends[:, -1] + 1` *after* the CR adjustment;
 `fixed = true` is the repaired rule (record end = one past the newline). -/
 def buildDelimited (fixed : Bool) (sep : Nat) (raw : Bytes) : Option Ext :=
-  let delims := posFrom (fun b => b == 10 || b == sep) 0 raw
-  let nls := delims.filter (fun p => byteAt raw p == 10)
-  match nls.getLast?, nls.head? with
-  | some lastNl, some firstNl =>
+  let isDelim := fun b => b == 10 || b == sep
+  let delims := posFrom isDelim 0 raw              -- flatnonzero(mask)
+  let dchars := raw.filter isDelim                  -- chunk[delimiters]
+  match (posFrom (· == 10) 0 raw).getLast? with    -- delimiters[entry_ends[-1]]
+  | none => none
+  | some lastNl =>
+    let nCols := dchars.findIdx (· == 10) + 1      -- entry_ends[0] + 1
     let data := raw.take (lastNl + 1)
     let ds := delims.filter (· ≤ lastNl)
-    let nCols := (ds.takeWhile (· < firstNl)).length + 1
     let starts := (0 :: ds.dropLast.map (· + 1))
     let sRows := chunksOf nCols ds.length starts
     let eRows := chunksOf nCols ds.length ds
@@ -154,7 +156,6 @@ def buildDelimited (fixed : Bool) (sep : Nat) (raw : Bytes) : Option Ext :=
            eStart := sRows.map (·.headD 0),
            eEnd := (if fixed then eRows else eRows').map (fun r => r.getLastD 0 + 1),
            contiguous := true }
-  | _, _ => none
 
 /-- split a list of delimiter positions into per-line groups (each group ends with a newline position) -/
 def groupLines (d : Bytes) : List Nat → List Nat → List (List Nat)
@@ -304,6 +305,52 @@ def specFields (nF : Nat) (repl : List (Nat × List Bytes)) (recs : List Rec) : 
       | some (_, col) => col.getD i []
       | none => ((recs[i]?).map (·.field j)).getD []))
 
+end C04
+
+namespace C04
+/-! ### eager fallback: buffers without `concatenate` (FASTQ, two-line FASTA)
+`np.concatenate` on such lazy tables materialises them (`get_data_object`: every entry-type field is
+fetched as text) and yields an eager table; a table is then either a pass-through extractor or rows of
+field texts (the fields in question are text columns, parsing and formatting them is the identity). -/
+
+def transposeRows (n : Nat) (cols : List (List Bytes)) : List (List Bytes) :=
+  (List.range n).map (fun i => cols.map (fun c => c.getD i []))
+
+/-- the entry-type fields (buffer field numbers `fidx`) of every record, as text -/
+def Ext.entryRows (fidx : List Nat) (e : Ext) : List (List Bytes) := transposeRows e.len (fidx.map e.fieldText)
+
+inductive Tab where
+  | lz (e : Ext)
+  | eg (rows : List (List Bytes))
+  deriving Repr
+
+def Tab.rows (fidx : List Nat) : Tab → List (List Bytes)
+  | .lz e => e.entryRows fidx
+  | .eg r => r
+
+def Prog.evalTab (canCat : Bool) (fidx : List Nat) (tabs : List Ext) : Prog → Option Tab
+  | .leaf k => (tabs[k]?).map Tab.lz
+  | .sel p ix =>
+    match p.evalTab canCat fidx tabs with
+    | some (.lz e) => (e.index ix).map Tab.lz
+    | some (.eg r) => (pyIndex r ix).map Tab.eg
+    | none => none
+  | .cat p q =>
+    match p.evalTab canCat fidx tabs, q.evalTab canCat fidx tabs with
+    | some (.lz a), some (.lz b) =>
+      if canCat then some (.lz (Ext.concat [a, b])) else some (.eg (a.entryRows fidx ++ b.entryRows fidx))
+    | some a, some b => some (.eg (a.rows fidx ++ b.rows fidx))
+    | _, _ => none
+  | .catRange a n =>
+    if a + n ≤ tabs.length ∧ 0 < n then
+      (if canCat then some (.lz (Ext.concat ((tabs.drop a).take n)))
+       else some (.eg (((tabs.drop a).take n).map (·.entryRows fidx)).flatten))
+    else none
+  | .touch p =>
+    match p.evalTab canCat fidx tabs with
+    | some (.lz e) => some (.lz e.touch)
+    | some (.eg r) => some (.eg r)
+    | none => none
 end C04
 
 namespace C04
